@@ -780,6 +780,13 @@ func (c *Ctx) plyCaseEP(g plyGenMesh, w plyWCfg, formats []ply.Format, agreeOp s
 		}
 		c.Emit("c04.holds.header_describes", fmt.Sprintf("%s %d %d %d", plyHx(data), m.AttributeLength(), nf, tri), "true")
 		c.Emit("c04.header", plyHx(data), plyImplReadHeader(data))
+		// claim stage (round 2): on the header the REAL writer emitted, inside the header-level guard `claimGuard`, the
+		// default reader's claim function builds exactly the readers predicted from the writer list (theorems
+		// ply_reader_claims_predicted / ply_claim_stage); the driver also checks that the real header's vertex
+		// properties are the ones the model writer lists.  Header bytes only; small meshes (the mesh token is re-parsed).
+		if hl := strings.Index(string(data), "end_header\n"); hl >= 0 && m.AttributeLength() <= 64 {
+			c.Emit("c04.holds.claim_ok", w.tok(f)+" "+plyMeshTok(m)+" "+plyHx(data[:hl+11]), "true")
+		}
 		rs, back := plyImplReadMesh(data)
 		c.Emit("c04.read", plyHx(data), rs)
 		if back == nil {
